@@ -17,7 +17,17 @@ use, and every defect seen so far is off by >= 1e-3), 1e-8 for the model/code co
 `pf_simple_load` and the trapezoid sums (same formula on both sides, libm vs numpy ulps).
 `pf_arbitrary_load` (a trapezoid sum of numbers close to one) cannot resolve its complement below its own O(h^2)
 quadrature error, so "converges to the same value" is checked relative to pf only (rtol 1e-6 at the finest grid,
-second-order envelope on the way)."""
+second-order envelope on the way); what it returns on each grid is in addition compared with the harness' own trapezoid
+sum of pdf * Phi (absolute 1e-13: that is what discriminates when pf is within 1e-6 of one).
+
+`pf_simple_load`: the only rounding that matters is that of the two log10 calls (libm on the model side, numpy on the code
+side, possibly a SIMD variant for arrays): 1 ulp each moves z by (|log10 L| + |log10 S|) 2^-52 / s_std and pf relatively by
+(|z| + 1) times that; the tolerance is 1e-11 plus four times this budget.
+
+Explicit `lower_limit` / `upper_limit` (not part of the property text, but four of the lines of the repair are exactly
+their conversion): the documented behaviour "only the load distribution between the limits is considered" = the overlap
+integral over the window; the code evaluates it through the complement when the strength median is below the load
+median, so its error is relative to the window's load mass: |got - ref| <= 1e-6 ref + 1e-9 mass + 4 ulp."""
 import json
 import math
 import warnings
@@ -25,6 +35,11 @@ import warnings
 import numpy as np
 
 from .core import Prop, f2h, h2f
+
+try:
+    from scipy.integrate import IntegrationWarning
+except Exception:                                  # pragma: no cover
+    IntegrationWarning = UserWarning
 
 SOURCES = ["src/pylife/strength/failure_probability.py"]
 
@@ -52,6 +67,63 @@ def zvalue(sm, ss, lm, ls):
 def pf_close(got, pf, q, rtol):
     d = abs(got - pf)
     return d <= rtol * pf and d <= rtol * q + 4 * ULP1
+
+
+_erfc = np.frompyfunc(math.erfc, 1, 1)
+_GLX, _GLW = np.polynomial.legendre.leggauss(20)
+
+
+def Phi_vec(z):
+    """Phi on an array through math.erfc (independent of scipy)"""
+    return 0.5 * _erfc(-np.asarray(z, dtype=float) / math.sqrt(2.0)).astype(float)
+
+
+def simple_rtol(sm, ss, load, z):
+    return 1e-11 + 4.0 * (abs(z) + 1.0) * (abs(math.log10(load)) + abs(math.log10(sm))) * 2.0 ** -52 / ss
+
+
+def ref_window(sm, ss, lm, ls, lo, hi):
+    """independent reference for pf_norm_load with explicit limits: (integral over the standardised window [lo, hi] of
+    phi(t) * Phi((ls t - loc)/ss), load mass of the window); composite 20-point Gauss-Legendre on the pieces cut at the
+    strength distribution's +-10 sigma, the smaller one of Phi / 1 - Phi is integrated (no cancellation)."""
+    lo, hi = max(lo, -40.0), min(hi, 40.0)       # the standard normal density is 0.0 in double precision beyond 38.6
+    if not lo < hi:
+        return 0.0, 0.0
+    loc = math.log10(sm) - math.log10(lm)
+    tr, w, r = loc / ls, 10.0 * ss / ls, ss / ls
+    sgn = 1.0 if loc >= 0 else -1.0
+    edges = sorted({lo, hi, min(max(tr - w, lo), hi), min(max(tr + w, lo), hi)})
+    total = 0.0
+    for a, b in zip(edges, edges[1:]):
+        inner = a >= tr - w and b <= tr + w
+        n = int(min(20000, max(1, math.ceil((b - a) / (0.5 * (min(r, 1.0) if inner else 1.0))))))
+        e = np.linspace(a, b, n + 1)
+        c, h = (e[1:] + e[:-1]) / 2, (e[1:] - e[:-1]) / 2
+        t = (c[:, None] + h[:, None] * _GLX[None, :]).ravel()
+        f = np.exp(-0.5 * t * t) / math.sqrt(2.0 * math.pi) * Phi_vec(sgn * (ls * t - loc) / ss)
+        total += float(np.sum(f.reshape(n, -1) * _GLW[None, :] * h[:, None]))
+    mass = Phi(hi) - Phi(lo) if lo < 0 else Phi(-lo) - Phi(-hi)
+    return (total if loc >= 0 else mass - total), mass
+
+
+def head_breakpoints(sm, ss, lm, ls):
+    """the two break point candidates of pf_norm_load, in the float expressions of the code"""
+    loc = np.log10(sm) - np.log10(lm)
+    transition = loc / ls
+    width = 10. * ss / ls
+    return float(transition - width), float(transition + width)
+
+
+def breakpoint_at_limit(sm, ss, lm, ls, lo=-16.0, hi=16.0):
+    """mechanism of the regression introduced by 2a91979 (D15-1): a break point candidate lies within a few ulp INSIDE an
+    integration limit, QUADPACK's QAGP gets a sub interval of ~1e-15 and returns a wrong value"""
+    return any(abs(p - l) <= 1e-9 for p in head_breakpoints(sm, ss, lm, ls) for l in (lo, hi))
+
+
+def limv(v):
+    """explicit limit of a case: None (default), a float, or the strings "inf" / "-inf" (kept as strings so that corpus and
+    replay files stay standard JSON)"""
+    return None if v is None else float(v)
 
 
 def logu(rng, lo, hi):
@@ -122,17 +194,115 @@ def gen_arb(rng):
 
 
 def gen_arbk(rng):
-    """a short arbitrary node list for the model/code correspondence of the trapezoid sum"""
+    """a short arbitrary node list for the model/code correspondence of the trapezoid sum (nodes from far below the
+    strength median upwards, or the same downwards: np.trapezoid takes descending nodes, too)"""
     sm = logu(rng, 1e-1, 1e3)
     ss = logu(rng, 1e-2, 0.5)
     n = rng.choice([0, 1, 2, 3, 5, 12, 40])
-    x0 = math.log10(sm) + rng.uniform(-3, 1) * ss
+    x0 = math.log10(sm) + rng.uniform(-9, 2) * ss
     xs, x = [], x0
     for _ in range(n):
         xs.append(x)
-        x += rng.choice([rng.uniform(0.0, 1.0) * ss, 0.25 * ss, 0.0 if rng.random() < 0.1 else 0.01 * ss])
+        x += rng.choice([rng.uniform(0.0, 1.0) * ss, 0.25 * ss, 0.0 if rng.random() < 0.1 else 0.01 * ss, rng.uniform(0.0, 3.0) * ss])
     ps = [rng.choice([rng.uniform(0, 5), 0.0, 1.0]) for _ in xs]
+    if rng.random() < 0.25:
+        xs.reverse()
+        ps.reverse()
     return {"kind": "arbk", "sm": sm, "ss": ss, "xs": xs, "ps": ps}
+
+
+def gen_bp_family():
+    """FIXED family (no random choice): one break point candidate `transition +- 10 s_std/load_std` of pf_norm_load coincides
+    with a default integration limit (+-16) exactly, and the load median is moved by up to 3 ulp to both sides."""
+    for r in (0.45, 0.5, 0.625, 0.7, 0.8, 0.9, 1.0, 1.1, 1.25, 1.3):       # load_std / strength_std; |z| <= ZMAX needs 0.42 <= r <= 1.35
+        for lim, sw in ((16.0, 1.0), (-16.0, -1.0)):
+            tr = lim - sw * 10.0 / r                                        # transition + sw * width = lim
+            for ss in (0.05, 0.02, 0.3):
+                ls = ss * r
+                for sm in (100.0, 1.0, 37.3):
+                    lm0 = 10.0 ** (math.log10(sm) - tr * ls)
+                    for k in (-3, -2, -1, 0, 1, 2, 3):
+                        lm = lm0
+                        for _ in range(abs(k)):
+                            lm = math.nextafter(lm, math.inf if k > 0 else 0.0)
+                        if abs(zvalue(sm, ss, lm, ls)) <= ZMAX:
+                            yield {"kind": "norm", "sm": sm, "ss": ss, "lm": lm, "ls": ls}
+    # round-number family of the audit: load median = 10^(1.00 : 0.05 : 3.00), scatters from a short list
+    S = (0.01, 0.02, 0.025, 0.05, 0.1, 0.2, 0.25, 0.5)
+    for ss in S:
+        for ls in S:
+            for i in range(41):
+                lm = 10.0 ** (1.0 + 0.05 * i)
+                if abs(zvalue(100.0, ss, lm, ls)) <= ZMAX and breakpoint_at_limit(100.0, ss, lm, ls):
+                    yield {"kind": "norm", "sm": 100.0, "ss": ss, "lm": lm, "ls": ls}
+
+
+def gen_limits(rng):
+    """pf_norm_load with explicit lower_limit / upper_limit (log10 units; None = default, +-inf allowed)"""
+    c = None
+    while c is None:
+        c = gen_norm(rng, z=rng.uniform(-5.0, 5.0))
+    l50, ls, ss = math.log10(c["lm"]), c["ls"], c["ss"]
+    tr = (math.log10(c["sm"]) - l50) / ls
+    m = rng.random()
+    if m < 0.35:
+        a, b = sorted((rng.uniform(-8, 8), rng.uniform(-8, 8)))
+    elif m < 0.55:                      # a window around the strength distribution
+        a, b = tr - rng.uniform(0, 12) * ss / ls, tr + rng.uniform(0, 12) * ss / ls
+    elif m < 0.7:                       # a limit exactly on a break point candidate
+        lo_, hi_ = head_breakpoints(c["sm"], ss, c["lm"], ls)
+        a, b = rng.choice([(lo_, lo_ + rng.uniform(0.5, 20)), (hi_ - rng.uniform(0.5, 20), hi_), (lo_, hi_)])
+    elif m < 0.85:
+        a, b = rng.choice([(-math.inf, math.inf), (-math.inf, rng.uniform(-3, 8)), (rng.uniform(-8, 3), math.inf),
+                           (None, rng.uniform(-3, 8)), (rng.uniform(-8, 3), None), (-16.0, 16.0)])
+    else:
+        a = rng.uniform(-6, 6)
+        b = a + logu(rng, 1e-6, 1.0)
+    if a is not None and b is not None and not a < b:
+        a, b = -1.0, 1.0
+    c["kind"] = "limits"
+    c["lo"] = None if a is None else ("-inf" if math.isinf(a) else l50 + a * ls)
+    c["hi"] = None if b is None else ("inf" if math.isinf(b) else l50 + b * ls)
+    return c
+
+
+def gen_state(rng):
+    """a sequence of calls on ONE FailureProbability object (the code keeps s_50 / s_std on the object)"""
+    sm = rng.choice([logu(rng, 1e-1, 1e3), 100.0])
+    ss = rng.choice([logu(rng, 1e-2, 0.5), 0.05])
+    s50 = math.log10(sm)
+    calls = []
+    for _ in range(rng.choice([3, 4, 6])):
+        m = rng.random()
+        if m < 0.45:
+            ls = ss * logu(rng, 0.1, 10.0)
+            z = rng.uniform(-4, 4)
+            calls.append(["norm", 10.0 ** (s50 + z * math.hypot(ls, ss)), ls])
+        elif m < 0.75:
+            calls.append(["simple", 10.0 ** (s50 + rng.uniform(-4, 4) * ss)])
+        else:
+            xs = sorted(s50 + rng.uniform(-5, 5) * ss for _ in range(rng.choice([2, 5, 9])))
+            calls.append(["arb", xs, [rng.uniform(0, 3) for _ in xs]])
+    calls.append(list(calls[0]))          # the first call once more at the end
+    return {"kind": "state", "sm": sm, "ss": ss, "calls": calls}
+
+
+def gen_simplearr(rng):
+    """pf_simple_load with array_like strength and load (docstring: shape (N,))"""
+    n = rng.choice([1, 2, 3, 7])
+    shape = rng.choice(["all", "all", "all", "scalar-strength", "scalar-load"])
+    sss = [rng.choice([logu(rng, 1e-3, 0.5), 0.05, 5.0]) for _ in range(n)]
+    if shape == "scalar-load":
+        load = rng.choice([logu(rng, 1e-2, 1e4), 100.0])
+        loads = [load] * n
+        sms = [10.0 ** (math.log10(load) - rng.uniform(-ZMAX, ZMAX) * ss) for ss in sss]
+    else:
+        sms = [rng.choice([logu(rng, 1e-2, 1e4), 100.0]) for _ in range(n)]
+        if shape == "scalar-strength":
+            sms, sss = [sms[0]] * n, [sss[0]] * n
+        loads = [10.0 ** (math.log10(sm) + rng.uniform(-ZMAX, ZMAX) * ss) for sm, ss in zip(sms, sss)]
+    return {"kind": "simplearr", "sms": sms, "sss": sss, "loads": loads, "shape": shape,
+            "container": rng.choice(["ndarray", "series", "list", "ndarray"])}
 
 
 def arb_grid(l50, ls, s50, ss, n):
@@ -154,40 +324,66 @@ class C15(Prop):
     ID = "C15"
     SOURCES = SOURCES
     LEAN_MODULES = ["Proofs.C15"]
+    PARALLEL = 8
     THEOREMS = [f"PylifeVerif.C15.{t}" for t in [
         "stdNormalCdf_isDistFn", "pf_in_unit_interval", "pf_mono_in_load", "pf_antitone_in_strength",
         "pf_zero_scatter_eq_simple_load", "pf_tends_to_simple_load",
-        "overlap_integral_eq_closed_form", "overlap_integral_standardised", "pf_arbitrary_eq_trapezoidal_rule", "pf_arbitrary_converges_partial"
+        "overlap_integral_eq_closed_form", "overlap_integral_standardised", "overlap_integral_tends_to_simple_load",
+        "pf_norm_load_code_eq_window_integral", "pf_norm_load_code_truncation", "pf_norm_load_code_near_closed_form",
+        "pf_norm_load_code_in_unit_interval", "pf_norm_load_code_limit",
+        "pf_arbitrary_eq_trapezoidal_rule", "pf_arbitrary_converges_partial",
+        "pf_arbitrary_nonuniform_error_le", "pf_arbitrary_gaussian_converges",
         ]]
     PARTIAL = {
         "PylifeVerif.C15.pf_arbitrary_converges_partial":
             "proved: on N uniform intervals of [a, b] pf_arbitrary_load is the composite trapezoidal rule of pdf * cdf_S, and for a "
             "twice continuously differentiable integrand with |f''| <= zeta its distance to the integral over [a, b] is at most "
-            "(b-a)^3 zeta / (12 N^2), hence it converges.  NOT proved: that the sampled normal density times the Gaussian "
-            "distribution function is C^2 with an explicit bound (smoothness of Phi is not derived from Mathlib's measure-theoretic "
-            "definition), the truncation [a, b] -> whole line, and non-uniform sample points - measured per run by the "
-            "refinement oracle (second-order envelope, 1e-6 relative at the finest grid).",
+            "(b-a)^3 zeta / (12 N^2).  The companions close most of what this theorem leaves open: "
+            "pf_arbitrary_nonuniform_error_le (any increasing nodes: sum h_k^3 zeta / 12 <= delta^2 (b-a) zeta / 12) and "
+            "pf_arbitrary_gaussian_converges (the sampled normal density times the Gaussian distribution function IS C^2 with a "
+            "bounded second derivative on [a, b], hence convergence on every refinement sequence of increasing nodes, and the limit "
+            "is below the closed form by at most the load mass outside [a, b]).  NOT proved: an explicit value of zeta for the "
+            "Gaussian integrand (existence only: convergence without a rate; the second-order rate is measured per run by the "
+            "refinement oracle), and rounding.",
     }
     RULE = ("case = one of: norm (strength median/std, load median/std; scatter ratio 1e-3..1e3 incl. end points, z uniform in "
-            "+-7.0344 i.e. pf in [1e-12, 1-1e-12], extra mass on both tails and on transitions lying exactly on bisection "
-            "points of the integration interval, e.g. equal medians); simple (deterministic loads); limit (load scatter -> 0 "
-            "sequence); arb (sampled log-normal density on a refinement sequence of grids); arbk (short arbitrary node "
-            "lists).  Correspondence: compiled Lean model (Float, own Phi by series / continued fraction) vs real code, "
-            "relative on pf AND on 1-pf (see module docstring).  Oracle (real code vs an independent erfc closed form): "
-            "value, range [0,1], strict monotonicity in load / strength median, limit load_std -> 0 = pf_simple_load, "
-            "convergence of pf_arbitrary_load.  Non-trivial = every case (distinct cases counted)")
+            "+-7.0344 i.e. pf in [1e-12, 1-1e-12], extra mass on both tails, on transitions lying exactly on bisection points of "
+            "the integration interval, and a FIXED family in which a break point candidate transition +- 10 s_std/load_std "
+            "coincides with an integration limit +-16 exactly and within +-3 ulp of the load median, plus the round-number "
+            "inputs 10^(k/20) for which it does); limits (explicit lower/upper limit: windows, a limit on a break point, "
+            "+-inf, tiny windows); simple (deterministic loads); simplearr (ndarray / Series / list strength and load against "
+            "scalar calls); state (a call sequence norm/simple/arb on ONE object against fresh objects); limit (load scatter "
+            "-> 0 sequence); arb (sampled log-normal density on a refinement sequence of two-scale grids and on random nodes); "
+            "arbk (short arbitrary node lists, ascending and descending); api (shape mismatch raises ValueError).  "
+            "Correspondence: compiled Lean model at Float - closed form with its own Phi (series / continued fraction) AND the "
+            "code-level model pfNormLoadCode (standardised window, cdf / sf branch, quad := composite Gauss-Legendre) - vs real "
+            "code, relative on pf AND on 1-pf (module docstring).  Oracle (real code vs an independent erfc closed form and an "
+            "independent Gauss-Legendre window integral): value, range [0,1], strict monotonicity in load / strength median, "
+            "limit load_std -> 0 = pf_simple_load, convergence of pf_arbitrary_load and identity with the harness' own "
+            "trapezoid sum, array = scalar results, results independent of earlier calls on the object.  "
+            "Non-trivial = every case (distinct cases counted)")
     ASSUMPTIONS = [
         "C15: theorems are over the reals with Phi = distribution function of Mathlib's gaussianReal 0 1 (or any strictly "
-        "increasing continuous function into (0,1) for range/monotonicity/limit); scipy.stats.norm.cdf/pdf/sf are assumed to be "
-        "these functions (measured against the driver's own series/continued-fraction Phi and against math.erfc)",
-        "C15: scipy.integrate.quad is modelled by the value of the integral (its contract); that it delivers it to 1e-6 relative "
-        "over the whole parameter range is what the run measures - not proved",
-        "C15: the default integration limits +-16 load_std are modelled as the whole line (neglected mass < 2*Phi(-16) = 1.3e-57); "
-        "explicit lower_limit / upper_limit arguments are not part of the property and not modelled",
-        "C15: admissible = medians and loads positive, strength_std > 0, load_std > 0 (load_std = 0 is NaN in the code; the limit "
-        "statement is about load_std -> 0); scalar arguments (quad is scalar)",
-        "C15: the model describes the REPAIRED pf_norm_load (tools/fixes/C15-pf-norm-load-relative-accuracy.diff): on the "
-        "unrepaired code small failure probabilities are wrong by orders of magnitude (F-7) and the oracle reports them",
+        "increasing continuous function into (0,1) for range/monotonicity/limit of the closed form); scipy.stats.norm.cdf/pdf/sf "
+        "are assumed to be Phi, its density and 1 - Phi (measured against the driver's own series/continued-fraction Phi and "
+        "against math.erfc)",
+        "C15: scipy.integrate.quad is modelled by the value of the integral (its contract; parameter `quad` of "
+        "Model.FailureProb.pfNormLoadCode, instantiated with the interval integral in the theorems and with a composite "
+        "Gauss-Legendre rule in the driver); that quad delivers it to 1e-6 relative over the whole parameter range is what the run "
+        "measures - not proved.  The regression of commit 2a91979 (a break point a few ulp inside a limit derails QUADPACK's "
+        "QAGP) is exactly a violation of this contract; the fixed break-point family of the generator aims at it",
+        "C15: the default integration limits +-16 load_std are PART of the model (pfNormLoadCode); theorem "
+        "pf_norm_load_code_near_closed_form bounds the distance to the closed form by 2 Phi(-16) < 2e-55.  Explicit "
+        "lower_limit / upper_limit are modelled as the standardised window (pf_norm_load_code_truncation) and checked against an "
+        "independent window integral although the property text does not mention them",
+        "C15: admissible = medians and loads positive, strength_std > 0, load_std > 0 (load_std = 0.0 raises ZeroDivisionError "
+        "in the repaired code, it returned 0.0 before 2a91979; the limit statement is about load_std -> 0, checked down to "
+        "1e-30 strength_std); pf_norm_load takes scalars (quad is scalar); pf_simple_load / pf_arbitrary_load arrays",
+        "C15: the model describes the REPAIRED pf_norm_load (commit 2a91979 + tools/fixes/C15-pf-norm-load-break-points-clear-of-"
+        "limits.diff): without the second repair inputs whose break point candidate falls within a few ulp of +-16 are wrong by "
+        "1-10 % of min(pf, 1-pf) and the oracle reports them (class pf-breakpoint-at-limit)",
+        "C15: FailureProbability objects are modelled as immutable pairs (log10 strength_median, strength_std); the state kind "
+        "checks that a call sequence on one object gives the results of fresh objects",
     ]
 
     def __init__(self):
@@ -199,17 +395,38 @@ class C15(Prop):
         self.stats[key] = self.stats.get(key, 0) + n
 
     # -------------------------------------------------------------- real code (memoised: K and oracle share calls)
-    def pf_norm(self, sm, ss, lm, ls):
-        key = (sm, ss, lm, ls)
+    def _call(self, fn):
+        """(value, note): IntegrationWarnings are recorded (quad reports that it may be wrong and the code drops the message),
+        an exception of the code under test is an answer (NaN), not an infrastructure error"""
+        with warnings.catch_warnings(record=True) as w:
+            warnings.simplefilter("always")
+            with np.errstate(all="ignore"):
+                try:
+                    v = fn()
+                    note = ""
+                except Exception as e:
+                    v = math.nan
+                    note = f" [the call raised {type(e).__name__}: {str(e)[:120]}]"
+                    self._count("exception_" + type(e).__name__)
+        iw = [x for x in w if issubclass(x.category, IntegrationWarning)]
+        if iw:
+            self._count("integration_warnings", len(iw))
+            note += f" [IntegrationWarning: {str(iw[0].message).splitlines()[0][:100]}]"
+        return v, note
+
+    def pf_norm_full(self, sm, ss, lm, ls, lo=None, hi=None):
+        key = (sm, ss, lm, ls, lo, hi)
         if key not in self._memo:
-            with warnings.catch_warnings():
-                warnings.simplefilter("ignore")
-                with np.errstate(all="ignore"):
-                    try:
-                        self._memo[key] = float(_fp().FailureProbability(sm, ss).pf_norm_load(lm, ls))
-                    except Exception:      # an exception of the code under test is an answer (NaN), not an infrastructure error
-                        self._memo[key] = math.nan
+            kw = {}
+            if lo is not None:
+                kw["lower_limit"] = lo
+            if hi is not None:
+                kw["upper_limit"] = hi
+            self._memo[key] = self._call(lambda: float(_fp().FailureProbability(sm, ss).pf_norm_load(lm, ls, **kw)))
         return self._memo[key]
+
+    def pf_norm(self, sm, ss, lm, ls, lo=None, hi=None):
+        return self.pf_norm_full(sm, ss, lm, ls, lo, hi)[0]
 
     @staticmethod
     def pf_simple(sm, ss, load):
@@ -225,19 +442,64 @@ class C15(Prop):
         except Exception:
             return math.nan
 
+    @staticmethod
+    def run_state(case, shared):
+        """results of the call sequence, on one object (shared) or on a fresh object per call"""
+        FP = _fp()
+        obj = FP.FailureProbability(case["sm"], case["ss"])
+        out = []
+        with warnings.catch_warnings():
+            warnings.simplefilter("ignore")
+            for c in case["calls"]:
+                o = obj if shared else FP.FailureProbability(case["sm"], case["ss"])
+                try:
+                    if c[0] == "norm":
+                        out.append(float(o.pf_norm_load(c[1], c[2])))
+                    elif c[0] == "simple":
+                        out.append(float(o.pf_simple_load(c[1])))
+                    else:
+                        out.append(float(o.pf_arbitrary_load(np.asarray(c[1], dtype=float), np.asarray(c[2], dtype=float))))
+                except Exception:
+                    out.append(math.nan)
+        return out
+
+    @staticmethod
+    def run_simplearr(case):
+        import pandas as pd
+        wrap = {"ndarray": lambda v: np.asarray(v, dtype=float), "list": list,
+                "series": lambda v: pd.Series(v, index=pd.RangeIndex(len(v)), dtype=float)}[case["container"]]
+        sms, sss, loads = case["sms"], case["sss"], case["loads"]
+        if case["shape"] == "scalar-strength":
+            fp = _fp().FailureProbability(sms[0], sss[0])
+        else:
+            fp = _fp().FailureProbability(wrap(sms), wrap(sss))
+        res = fp.pf_simple_load(loads[0] if case["shape"] == "scalar-load" else wrap(loads))
+        res = np.asarray(res, dtype=float)
+        if res.shape != (len(loads),):            # an answer of the code under test, not a harness problem
+            return None, f"pf_simple_load returned shape {res.shape} for {len(loads)} elements"
+        return [float(v) for v in res], None
+
     # -------------------------------------------------------------- generation
     def generate(self, rng, tier):
         big = tier != "quick"
-        counts = {"norm": 260, "dyadic": 60, "simple": 40, "limit": 12, "arb": 14, "arbk": 40}
+        counts = {"norm": 200, "dyadic": 60, "limits": 60, "simple": 40, "simplearr": 40, "state": 30, "limit": 12, "arb": 12, "arbk": 50}
         if big:
-            counts = {"norm": 3000, "dyadic": 600, "simple": 300, "limit": 120, "arb": 150, "arbk": 300}
+            counts = {"norm": 3000, "dyadic": 600, "limits": 600, "simple": 300, "simplearr": 300, "state": 200, "limit": 120,
+                      "arb": 120, "arbk": 400}
+        # fixed: break point candidate on an integration limit (regression of 2a91979), quick tier: strength median 100 only
+        for c in gen_bp_family():
+            if big or (c["sm"] == 100.0 and c["ss"] != 0.3):
+                yield c
         # fixed grid: scatter ratio decades x probability decades (the F-7 table)
-        for ratio in (1e-3, 1e-2, 1e-1, 1.0, 10.0, 1e2, 1e3):
+        # (decades, plus load scatter a few hundred times the strength scatter: a single break point ON the transition
+        # is wrong there by 1e-3 - seeded change C15r2-m1 - and a sweep in decades steps over that band)
+        for ratio in (1e-3, 1e-2, 1e-1, 1.0, 10.0, 1e2, 300.0, 500.0, 800.0, 1e3):
             for z in (-ZMAX, -5.9978, -4.7534, -3.0902, -1.2816, 0.0, 1.2816, 3.0902, 4.7534, 5.9978, ZMAX):
                 ss = 0.02
                 ls = ss * ratio
                 lm = 10.0 ** (2.0 + z * math.hypot(ls, ss))
                 yield {"kind": "norm", "sm": 100.0, "ss": ss, "lm": lm, "ls": ls}
+        yield {"kind": "api", "what": "shape-mismatch"}
         n = 0
         while n < counts["norm"]:
             c = gen_norm(rng)
@@ -250,23 +512,43 @@ class C15(Prop):
             if c is not None:
                 n += 1
                 yield c
-        for kind, g in (("simple", gen_simple), ("limit", gen_limit), ("arb", gen_arb), ("arbk", gen_arbk)):
+        for kind, g in (("limits", gen_limits), ("simple", gen_simple), ("simplearr", gen_simplearr), ("state", gen_state),
+                        ("limit", gen_limit), ("arb", gen_arb), ("arbk", gen_arbk)):
             for _ in range(counts[kind]):
                 yield g(rng)
 
     # -------------------------------------------------------------- correspondence
+    @staticmethod
+    def _lim(v):
+        return "-" if v is None else f2h(limv(v))
+
+    def _call_line(self, case, c):
+        if c[0] == "norm":
+            return f"c15.norm {f2h(case['sm'])} {f2h(case['ss'])} {f2h(c[1])} {f2h(c[2])}"
+        if c[0] == "simple":
+            return f"c15.simple {f2h(case['sm'])} {f2h(case['ss'])} {f2h(c[1])}"
+        pts = " ".join(f"{f2h(x)} {f2h(p)}" for x, p in zip(c[1], c[2]))
+        return f"c15.arb {f2h(case['sm'])} {f2h(case['ss'])} {pts}".rstrip()
+
     def model_lines(self, case):
         k = case["kind"]
         if k == "norm":
-            return [f"c15.norm {f2h(case['sm'])} {f2h(case['ss'])} {f2h(case['lm'])} {f2h(case['ls'])}"]
+            a = f"{f2h(case['sm'])} {f2h(case['ss'])} {f2h(case['lm'])} {f2h(case['ls'])}"
+            return [f"c15.norm {a}", f"c15.normw {a} - -"]
+        if k == "limits":
+            a = f"{f2h(case['sm'])} {f2h(case['ss'])} {f2h(case['lm'])} {f2h(case['ls'])}"
+            return [f"c15.normw {a} {self._lim(case['lo'])} {self._lim(case['hi'])}"]
         if k == "simple":
             return [f"c15.simple {f2h(case['sm'])} {f2h(case['ss'])} {f2h(l)}" for l in case["loads"]]
+        if k == "simplearr":
+            return [f"c15.simple {f2h(sm)} {f2h(ss)} {f2h(l)}" for sm, ss, l in zip(case["sms"], case["sss"], case["loads"])]
+        if k == "state":
+            return [self._call_line(case, c) for c in case["calls"]]
         if k == "limit":
             return [f"c15.norm {f2h(case['sm'])} {f2h(case['ss'])} {f2h(case['lm'])} {f2h(case['ss'] * r)}" for r in case["ratios"]]
         if k == "arbk":
-            pts = " ".join(f"{f2h(x)} {f2h(p)}" for x, p in zip(case["xs"], case["ps"]))
-            return [f"c15.arb {f2h(case['sm'])} {f2h(case['ss'])} {pts}".rstrip()]
-        return []     # arb: the grids are too long for the wire; the oracle treats them
+            return [self._call_line(case, ["arb", case["xs"], case["ps"]])]
+        return []     # arb: the grids are too long for the wire; the oracle treats them.  api: no model
 
     def impl_lines(self, case):
         k = case["kind"]
@@ -275,35 +557,92 @@ class C15(Prop):
             z = zvalue(case["sm"], case["ss"], case["lm"], case["ls"])
             self._count("norm_pf_decade_%+03d" % max(-12, math.floor(math.log10(min(Phi(z), Phi(-z))) + 1e-9)) + ("_lo" if z < 0 else "_hi"))
             self._count("norm_ratio_decade_%+d" % math.floor(math.log10(case["ls"] / case["ss"]) + 1e-9))
-            return [f2h(self.pf_norm(case["sm"], case["ss"], case["lm"], case["ls"]))]
+            if breakpoint_at_limit(case["sm"], case["ss"], case["lm"], case["ls"]):
+                self._count("norm_breakpoint_candidate_at_limit")
+            v = f2h(self.pf_norm(case["sm"], case["ss"], case["lm"], case["ls"]))
+            return [v, v]
+        if k == "limits":
+            self._count("limits_" + ("inf" if any(isinstance(v, str) for v in (case["lo"], case["hi"])) else
+                                     "default-one-side" if None in (case["lo"], case["hi"]) else "finite"))
+            return [f2h(self.pf_norm(case["sm"], case["ss"], case["lm"], case["ls"], limv(case["lo"]), limv(case["hi"])))]
         if k == "simple":
             return [f2h(self.pf_simple(case["sm"], case["ss"], l)) for l in case["loads"]]
+        if k == "simplearr":
+            self._count("simplearr_" + case["container"] + "_" + case["shape"])
+            vals, err = self.run_simplearr(case)
+            return [f"EXC {err}"] * len(case["loads"]) if vals is None else [f2h(v) for v in vals]
+        if k == "state":
+            return [f2h(v) for v in self.run_state(case, shared=True)]
         if k == "limit":
             return [f2h(self.pf_norm(case["sm"], case["ss"], case["lm"], case["ss"] * r)) for r in case["ratios"]]
         if k == "arbk":
+            if len(case["xs"]) > 1 and case["xs"][0] > case["xs"][-1]:
+                self._count("arbk_descending")
             return [f2h(self.pf_arb(case["sm"], case["ss"], case["xs"], case["ps"]))]
         return []
 
+    @staticmethod
+    def _cmp_arb(a, b):
+        want, got = h2f(a), h2f(b)
+        if not (got == want or abs(got - want) <= 1e-11 * max(abs(got), abs(want)) + 1e-300):
+            return f"trapezoid sum model={want!r} impl={got!r}"
+        return None
+
+    @staticmethod
+    def _cmp_pf(a, b, rt, what=""):
+        got = h2f(b)
+        pf, q = [h2f(t) for t in a.split()]
+        if not pf_close(got, pf, q, rt):
+            return (f"{what}model pf={pf!r} (1-pf={q!r}) impl={got!r} rel.dev on pf {abs(got - pf) / pf:.3g}, "
+                    f"on 1-pf {abs(got - pf) / q:.3g}")
+        return None
+
     def compare(self, case, model_out, impl_out):
         if len(model_out) != len(impl_out):
-            return f"length {len(model_out)} vs {len(impl_out)}"
+            return f"length {len(model_out)} vs {len(impl_out)}" + (f" ({impl_out[0]})" if impl_out and impl_out[0].startswith("EXC") else "")
         k = case["kind"]
         for i, (a, b) in enumerate(zip(model_out, impl_out)):
-            got = h2f(b)
+            d = None
+            if b.startswith("EXC"):
+                return f"line {i}: {b}"
             if k == "arbk":
-                want = h2f(a)
-                if not (got == want or abs(got - want) <= 1e-11 * max(abs(got), abs(want)) + 1e-300):
-                    return f"line {i}: trapezoid sum model={want!r} impl={got!r}"
-                continue
-            pf, q = [h2f(t) for t in a.split()]
-            rt = 1e-11 if k == "simple" else 1e-8
-            if not pf_close(got, pf, q, rt):
-                return (f"line {i}: model pf={pf!r} (1-pf={q!r}) impl={got!r} rel.dev on pf {abs(got - pf) / pf:.3g}, "
-                        f"on 1-pf {abs(got - pf) / q:.3g}")
+                d = self._cmp_arb(a, b)
+            elif k == "norm" and i == 1:
+                # the code-level model (window, cdf / sf branch, Gauss-Legendre): same tolerance, complement from the closed form
+                q = model_out[0].split()[1]
+                d = self._cmp_pf(f"{a} {q}", b, 1e-8, "code-level model pfNormLoadCode: ")
+            elif k == "limits":
+                got, want = h2f(b), h2f(a)
+                lo, hi = self._std_limits(case)
+                mass = Phi(hi) - Phi(lo) if lo < 0 else Phi(-lo) - Phi(-hi)
+                if not abs(got - want) <= 1e-8 * abs(want) + 1e-10 * mass + 4 * ULP1:
+                    d = f"explicit limits: code-level model {want!r} impl={got!r} (window load mass {mass:.3g})"
+            elif k == "state":
+                c = case["calls"][i]
+                if c[0] == "arb":
+                    d = self._cmp_arb(a, b)
+                else:
+                    zz = (math.log10(c[1]) - math.log10(case["sm"])) / case["ss"]
+                    d = self._cmp_pf(a, b, 1e-8 if c[0] == "norm" else simple_rtol(case["sm"], case["ss"], c[1], zz), f"call {i} {c[0]} on a shared object: ")
+            elif k in ("simple", "simplearr"):
+                sm, ss, l = ((case["sm"], case["ss"], case["loads"][i]) if k == "simple"
+                             else (case["sms"][i], case["sss"][i], case["loads"][i]))
+                d = self._cmp_pf(a, b, simple_rtol(sm, ss, l, (math.log10(l) - math.log10(sm)) / ss))
+            else:
+                d = self._cmp_pf(a, b, 1e-8)
+            if d is not None:
+                return f"line {i}: {d}"
         return None
 
     def nontrivial(self, case, model_out):
         return json.dumps(case, sort_keys=True)
+
+    @staticmethod
+    def _std_limits(case):
+        l50, ls = math.log10(case["lm"]), case["ls"]
+        lo = -16.0 if case["lo"] is None else (limv(case["lo"]) - l50) / ls
+        hi = 16.0 if case["hi"] is None else (limv(case["hi"]) - l50) / ls
+        return lo, hi
 
     # -------------------------------------------------------------- direct property oracle (real code only)
     def oracle(self, case):
@@ -311,27 +650,25 @@ class C15(Prop):
         with warnings.catch_warnings():
             warnings.simplefilter("ignore")
             with np.errstate(all="ignore"):
-                if k == "norm":
-                    return self._oracle_norm(case)
-                if k == "simple":
-                    return self._oracle_simple(case)
-                if k == "limit":
-                    return self._oracle_limit(case)
-                if k == "arb":
-                    return self._oracle_arb(case)
-        return None
+                fn = getattr(self, "_oracle_" + k, None)
+                return fn(case) if fn else None
 
     def _oracle_norm(self, case):
         sm, ss, lm, ls = case["sm"], case["ss"], case["lm"], case["ls"]
         z = zvalue(sm, ss, lm, ls)
         pf, q = Phi(z), Phi(-z)
-        got = self.pf_norm(sm, ss, lm, ls)
+        got, note = self.pf_norm_full(sm, ss, lm, ls)
         where = f"FailureProbability({sm!r}, {ss!r}).pf_norm_load({lm!r}, {ls!r})"
         if not (0.0 <= got <= 1.0):
-            return (f"{where} = {got!r} outside [0, 1]", "pf-range")
+            return (f"{where} = {got!r} outside [0, 1]{note}", "pf-range")
         if not pf_close(got, pf, q, RT_ORACLE):
-            return (f"{where} = {got!r}, closed form Phi({z!r}) = {pf!r} (1 - pf = {q!r}): relative deviation "
-                    f"{abs(got - pf) / pf:.3g} on pf, {abs(got - pf) / q:.3g} on 1 - pf", "pf-closed-form")
+            d = (f"{where} = {got!r}, closed form Phi({z!r}) = {pf!r} (1 - pf = {q!r}): relative deviation "
+                 f"{abs(got - pf) / pf:.3g} on pf, {abs(got - pf) / q:.3g} on 1 - pf{note}")
+            if breakpoint_at_limit(sm, ss, lm, ls):
+                lo_, hi_ = head_breakpoints(sm, ss, lm, ls)
+                return (d + f"; break point candidates transition -+ 10 s_std/load_std = {lo_!r}, {hi_!r}: one of them lies "
+                        "within 1e-9 of an integration limit +-16", "pf-breakpoint-at-limit")
+            return (d, "pf-closed-form")
         # strictly increasing in the load median, strictly decreasing in the strength median: shift z by +0.1
         sig = math.hypot(ls, ss)
         if z + 0.1 <= ZMAX:
@@ -345,6 +682,24 @@ class C15(Prop):
             if sm2 < sm and not up2 > got:
                 return (f"pf_norm_load not decreasing in the strength median: {got!r} at {sm!r}, {up2!r} at {sm2!r} "
                         f"(strength_std {ss!r}, load {lm!r}/{ls!r})", "pf-antitone-strength")
+        return None
+
+    def _oracle_limits(self, case):
+        sm, ss, lm, ls = case["sm"], case["ss"], case["lm"], case["ls"]
+        lo, hi = self._std_limits(case)
+        ref, mass = ref_window(sm, ss, lm, ls, lo, hi)
+        got, note = self.pf_norm_full(sm, ss, lm, ls, limv(case["lo"]), limv(case["hi"]))
+        where = (f"FailureProbability({sm!r}, {ss!r}).pf_norm_load({lm!r}, {ls!r}, lower_limit={case['lo']!r}, "
+                 f"upper_limit={case['hi']!r})")
+        if not (-4 * ULP1 <= got <= 1.0):
+            return (f"{where} = {got!r} outside [0, 1]{note}", "pf-range")
+        if not abs(got - ref) <= RT_ORACLE * ref + 1e-9 * mass + 4 * ULP1:
+            return (f"{where} = {got!r}, but the overlap integral over the window (standardised limits {lo!r} .. {hi!r}, load mass "
+                    f"{mass:.6g}) is {ref!r}{note}", "pf-explicit-limits")
+        if math.isinf(lo) and math.isinf(hi):
+            z = zvalue(sm, ss, lm, ls)
+            if not pf_close(got, Phi(z), Phi(-z), RT_ORACLE):
+                return (f"{where} = {got!r}, closed form {Phi(z)!r}{note}", "pf-explicit-limits")
         return None
 
     def _oracle_simple(self, case):
@@ -364,6 +719,41 @@ class C15(Prop):
                 return (f"pf_simple_load not increasing: {p1!r} at {l1!r}, {p2!r} at {l2!r}", "pf-monotone-load")
         return None
 
+    def _oracle_simplearr(self, case):
+        arr, err = self.run_simplearr(case)
+        if arr is None:
+            return (f"{err}: {case['container']} arguments ({case['shape']}), strength {case['sms']!r} / {case['sss']!r}, loads "
+                    f"{case['loads']!r}", "pf-array-path")
+        for i, (sm, ss, l, got) in enumerate(zip(case["sms"], case["sss"], case["loads"], arr)):
+            z = (math.log10(l) - math.log10(sm)) / ss
+            one = self.pf_simple(sm, ss, l)
+            rt = simple_rtol(sm, ss, l, z)
+            if not (pf_close(got, one, Phi(-z), rt) and pf_close(got, Phi(z), Phi(-z), 1e-9)):
+                return (f"pf_simple_load with {case['container']} arguments ({case['shape']}): element {i} = {got!r}, but the scalar "
+                        f"call FailureProbability({sm!r}, {ss!r}).pf_simple_load({l!r}) = {one!r} (Phi = {Phi(z)!r}); strength "
+                        f"{case['sms']!r} / {case['sss']!r}, loads {case['loads']!r}", "pf-array-path")
+        return None
+
+    def _oracle_state(self, case):
+        shared = self.run_state(case, shared=True)
+        fresh = self.run_state(case, shared=False)
+        for i, (c, a, b) in enumerate(zip(case["calls"], shared, fresh)):
+            if not (a == b or (a != a and b != b)):
+                return (f"call {i} ({c[0]} {c[1:]!r}) on a FailureProbability({case['sm']!r}, {case['ss']!r}) object that has already "
+                        f"answered {[x[0] for x in case['calls'][:i]]} returns {a!r}; a fresh object returns {b!r}", "pf-object-state")
+        return None
+
+    def _oracle_api(self, case):
+        FP = _fp()
+        try:
+            FP.FailureProbability(1.0, 0.1).pf_arbitrary_load(np.array([1.0, 2.0, 3.0]), np.array([0.1, 0.2]))
+        except ValueError:
+            return None
+        except Exception as e:
+            return (f"pf_arbitrary_load with load_values of shape (3,) and load_pdf of shape (2,) raises {type(e).__name__}, "
+                    "documented: ValueError", "pf-api")
+        return ("pf_arbitrary_load accepts load_values of shape (3,) with load_pdf of shape (2,)", "pf-api")
+
     def _oracle_limit(self, case):
         sm, ss, lm = case["sm"], case["ss"], case["lm"]
         target = self.pf_simple(sm, ss, lm)
@@ -381,6 +771,11 @@ class C15(Prop):
                         f"(strength {sm!r}/{ss!r}, scatter ratio {r!r}; the closed form moves by {move:.3g} only)", "pf-limit")
         return None
 
+    @staticmethod
+    def _own_trapezoid(x, p, s50, ss):
+        y = p * Phi_vec((x - s50) / ss)
+        return float(np.sum(np.diff(x) * (y[1:] + y[:-1]) / 2.0))
+
     def _oracle_arb(self, case):
         sm, ss, lm, ls = case["sm"], case["ss"], case["lm"], case["ls"]
         z = zvalue(sm, ss, lm, ls)
@@ -390,7 +785,13 @@ class C15(Prop):
         for k in range(ARB_LEVELS):
             n = 250 * 2 ** k
             x = arb_grid(l50, ls, s50, ss, n)
-            got = self.pf_arb(sm, ss, x, norm_pdf(x, l50, ls))
+            p = norm_pdf(x, l50, ls)
+            got = self.pf_arb(sm, ss, x, p)
+            own = self._own_trapezoid(x, p, s50, ss)
+            if not abs(got - own) <= 1e-13 + 1e-11 * own:
+                return (f"pf_arbitrary_load on {len(x)} nodes = {got!r} is not the trapezoid sum of load_pdf * Phi((x - s_50)/s_std) "
+                        f"= {own!r} (difference {got - own:.3g}; strength {sm!r}/{ss!r}, load {lm!r}/{ls!r}, closed form {pf!r})",
+                        "pf-arbitrary")
             e = abs(got - pf) / pf
             errs.append(e)
             if not e <= max(ARB_ENVELOPE * 4.0 ** -k, RT_ORACLE):
@@ -399,14 +800,27 @@ class C15(Prop):
                         f"(strength {sm!r}/{ss!r}, load {lm!r}/{ls!r}; errors so far {['%.2g' % v for v in errs]})", "pf-arbitrary")
         if not errs[-1] <= RT_ORACLE:
             return (f"pf_arbitrary_load does not reach 1e-6 at the finest grid: {errs[-1]:.3g}", "pf-arbitrary")
-        self._count("arb_levels_run", ARB_LEVELS)
+        # random (non-uniform) nodes as in the upstream test: 4000 per scale, reproducible from the case
+        r = np.random.default_rng(int(abs(z) * 1e6) + 17)
+        x = np.unique(np.concatenate([l50 + ls * r.uniform(-16, 16, 4000), np.clip(s50 + ss * r.uniform(-10, 10, 4000), l50 - 16 * ls, l50 + 16 * ls),
+                                      [l50 - 16 * ls, l50 + 16 * ls]]))
+        p = norm_pdf(x, l50, ls)
+        got = self.pf_arb(sm, ss, x, p)
+        own = self._own_trapezoid(x, p, s50, ss)
+        hmax = max(float(np.max(np.diff(x[(x >= l50 - 6 * ls) & (x <= l50 + 6 * ls)]), initial=0.0)) / ls, 0.0)
+        if not abs(got - own) <= 1e-13 + 1e-11 * own or not abs(got - pf) <= 0.5 * pf + 1e-300:
+            return (f"pf_arbitrary_load on {len(x)} random nodes = {got!r}; own trapezoid sum {own!r}, closed form {pf!r} "
+                    f"(largest step within +-6 load sigma {hmax:.3g} sigma; strength {sm!r}/{ss!r}, load {lm!r}/{ls!r})", "pf-arbitrary")
+        self._count("arb_levels_run", ARB_LEVELS + 1)
+        if min(pf, Phi(-z)) == Phi(-z) and Phi(-z) < 1e-6:
+            self._count("arb_cases_pf_within_1e-6_of_one")
         return None
 
     # -------------------------------------------------------------- shrinking
     def shrink(self, case, still_fails):
         cur = dict(case)
         for key in ("loads", "ratios"):
-            if key in cur:
+            if key in cur and cur["kind"] in ("simple", "limit"):
                 for v in list(cur[key]):
                     cand = dict(cur, **{key: [v]})
                     try:
@@ -415,6 +829,19 @@ class C15(Prop):
                             break
                     except Exception:
                         continue
+        if cur["kind"] == "state":
+            calls = list(cur["calls"])
+            i = 0
+            while i < len(calls) and len(calls) > 1:
+                cand = dict(cur, calls=calls[:i] + calls[i + 1:])
+                try:
+                    if still_fails(cand):
+                        calls = cand["calls"]
+                        continue
+                except Exception:
+                    pass
+                i += 1
+            cur = dict(cur, calls=calls)
         if cur["kind"] == "norm":
             # round the parameters to few digits while the failure persists
             for digits in (3, 6):
